@@ -51,5 +51,11 @@ Theorem C07_phreeqc_reset_covers_every_field : phreeqc_reset_ok phreeqc_not_rese
 Proof. vm_compute. reflexivity. Qed.
 Print Assumptions C07_phreeqc_reset_covers_every_field.
 
+(** T-gen: the reset path still makes every call of the reviewed list (sub-objects with state of their own are freed and
+    re-created: BASIC interpreter, pitzer/sit tables, CVODE work space, rates, calculate_values, string pool ...). *)
+Theorem C07_reset_path_makes_required_calls : reset_calls_ok reset_path_calls = true.
+Proof. vm_compute. reflexivity. Qed.
+Print Assumptions C07_reset_path_makes_required_calls.
+
 Example C07_inventory_not_vacuous : (400 <=? List.length phreeqc_members)%nat = true /\ (40 <=? List.length iphreeqc_members)%nat = true.
 Proof. vm_compute. split; reflexivity. Qed.
